@@ -14,9 +14,13 @@ INSTANCE_CLASSES = [
     "gap",
     "degenerate",
     "library",
+    "huge",
 ]
-NONFLEX_CLASSES = ["classic", "irregular", "recirc", "zero_nf", "gap", "degenerate"]
-POSITIVE_CLASSES = ["classic", "irregular", "recirc", "flexible", "gap", "degenerate", "library"]
+NONFLEX_CLASSES = ["classic", "irregular", "recirc", "zero_nf", "gap", "degenerate", "huge_nf"]
+POSITIVE_CLASSES = ["classic", "irregular", "recirc", "flexible", "gap", "degenerate", "library", "huge"]
+# classes whose values are exactly representable in float32 (feature arrays are float32 by design)
+FLOAT32_EXACT = [c for c in INSTANCE_CLASSES if c != "huge"]
+FLOAT32_EXACT_POSITIVE = [c for c in POSITIVE_CLASSES if c != "huge"]
 
 FILTER_NAMES = [
     "dominated_operations",
@@ -39,6 +43,12 @@ def gen_instance(rng: random.Random, cls=None, max_jobs=4, max_machines=4, max_o
     small = rng.random() < 0.7
     base = cls
     zero = False
+    huge = False
+    if cls in ("huge", "huge_nf"):
+        # time values beyond 2**24 (not representable in float32), odd offsets
+        huge = True
+        base = rng.choice(["classic", "irregular", "recirc"]
+                          + ([] if cls == "huge_nf" else ["flexible", "flexible"]))
     if cls in ("zero", "zero_nf"):
         zero = True
         base = rng.choice(
@@ -107,6 +117,11 @@ def gen_instance(rng: random.Random, cls=None, max_jobs=4, max_machines=4, max_o
                     job[p] = 0
                 elif rng.random() < 0.4:
                     job[p] = 0
+    if huge:
+        big = 2 ** rng.choice([24, 24, 25, 26])
+        for job in inst["durations"]:
+            for p in range(len(job)):
+                job[p] = big + rng.randint(0, 120) if rng.random() < 0.7 else rng.randint(1, 60)
     inst["cls"] = cls
     if max_ops is not None:
         _trim(inst, max_ops)
